@@ -31,8 +31,9 @@ CONFIG = {
              "interned ints / 1-char strings, anchored scalars aliased under mapping keys, inside sequences, as keys "
              "and as set members, empty containers, nested sequences) x histories of length <= 4 (quick) / <= 6 "
              "(thorough) of Set (every value format and scalar type, mustexist on/off, paths: exact, negative index, "
-             "wildcard, search, **, [name()], Collector unions) and Delete operations, every path generated from the "
-             "current real document to match >= 1 node; plus a structured stream (n/15 cases) for the alias-used-as-a-key "
+             "wildcard, search, **, [name()], Array slices - also slices that select nothing: past the end, reversed, "
+             "before the start -, Collector unions) and Delete operations, every path generated from the "
+             "current real document to match >= 1 node (or to be such an empty slice); plus a structured stream (n/15 cases) for the alias-used-as-a-key "
              "branch: a mapping with an anchored key, aliases of it as value / element / key of a second mapping, changed "
              "through a value alias to a sibling key (refused), to itself, or to a fresh name (renamed).  "
              "every step is compared twice: the model fed with the coordinates captured from the real read side, and "
@@ -244,6 +245,7 @@ def set_step(p, path, value, fmt, mustexist):
             return rec
     depth = [0]
     calls = []
+    updates = []
     leaf_checks = []
     orig_apply = p._apply_change
     orig_update = p._update_node
@@ -258,6 +260,7 @@ def set_step(p, path, value, fmt, mustexist):
             depth[0] -= 1
 
     def update_and_check(parent, parentref, val, value_format, value_tag=None):
+        updates.append((parent, parentref))
         shadow = mutgen.Shadow(p.data)
         pre_text = docenc.canon_doc_text(docenc.encode(p.data)[0])
         ent = shadow.kids.get(id(parent)) if parent is not None else None
@@ -345,6 +348,13 @@ def set_step(p, path, value, fmt, mustexist):
         del p._apply_change
         del p._update_node
     created = evalcommon._ENV.get("creations", 0) > 0
+    # the places the gathered coordinates designate, by the harness's own flattening: an empty list that is no
+    # object of the document (the Array slice that selects nothing) designates none
+    leaves = [nc for nc in mutgen.flat_coords(calls, for_delete=False) if not mutgen.is_empty_virtual(nc, doc_ids)]
+    rec["stray"] = [repr(r) for (par, r) in updates
+                    if not any(nc.parent is par and type(nc.parentref) is type(r) and nc.parentref == r
+                               for nc in leaves)]
+    rec["no_leaf"] = bool(calls) and not leaves
     vo0 = enc.oids.get(id(value)) if (value is None or isinstance(value, (str, int, float))) else None
 
     def e2e_request():
@@ -498,6 +508,15 @@ def judge_step(rec):
         if v is not None:
             return "delete step: " + v
     else:
+        if rec.get("stray"):
+            return ("_update_node was called for a place no gathered coordinate designates (parentref %s): an Array "
+                    "slice that selects nothing is no element of the sliced Array" % ", ".join(rec["stray"]))
+        if rec.get("no_leaf"):
+            # only slices that select nothing were gathered: nothing to change, nothing to fail
+            if rec["exc"] is not None:
+                return "a set through an Array slice that selects nothing raised %s" % type(rec["exc"]).__name__
+            if rec["after"] != docenc.canon_doc_text(rec["before"]):
+                return "a set through an Array slice that selects nothing changed the document"
         for lc in rec["leaf"]:
             if lc.get("exc") is not None:
                 e = lc["exc"]
@@ -546,6 +565,8 @@ def classify(case, obs):
         else:
             n = rec["applied"]
             ks.append(("s%d" % min(n, 3)) if rec["exc"] is None else "S")
+            if rec.get("no_leaf"):
+                ks.append("e")          # only Array slices that select nothing were gathered
             if any(lc.get("key_target") for lc in rec["leaf"]):
                 ks.append("k")          # an alias of the changed node is a mapping key: renamed with it
             if rec["exc"] is not None and type(rec["exc"]).__name__ == "DuplicateKeyYAMLPathException":
@@ -601,6 +622,14 @@ CORPUS = [
     # model does not follow detached parents: must be classified detached-parent, not compared
     script_case("[{&n1 b: {c: '', k1: b, e: \"dq\"}, x: {e: x, c: 5}, a: *n1, c: 1.5}, [[*n1, &n2 -3], k1, [foo, &n3 c, x], []], bar]",
                 [["set", "([1][0])+([-2][0][-2])", "c", "DEFAULT"]]),
+    # an Array slice that selects nothing (fixed f20b613): past the end (was a bare IndexError), reversed within
+    # range (the element at the start of the slice was replaced / deleted), before the start, of an empty Array,
+    # beside a real match in a Collector union, and then a real change in the same history
+    script_case("{a: [1, 2, 3]}", [["set", "a[5:9]", "x", "DEFAULT"], ["set", "a[1:0]", "x", "DEFAULT"],
+                                   ["set", "a[-9:-7]", "x", "INT"], ["set", "a[0:2]", "y", "DEFAULT"]]),
+    script_case("{a: [1, 2, 3], b: []}", [["set", "b[0:2]", "x", "DEFAULT"], ["del", "a[2:1]"], ["del", "a[3:3]"],
+                                          ["set", "a[-1:-2]", "x", "DEFAULT"]]),
+    script_case("{a: [1, 2, 3], b: 1}", [["set", "(b)+(a[1:0])", "x", "DEFAULT"]]),
     # former C04 F15 inside a history
     script_case("{a: [1, 2, 3, 4]}", [["del", "(a[2])+(a[0])"], ["set", "a[0]", "9", "DEFAULT"]]),
 ]
